@@ -522,20 +522,13 @@ def byte_limit_rules(ctx, w):
         paths = dex.paths(f, [D.sym("s")])
         okp = [p for p in paths if p.kind == "ret" and U.is_ok(p.ret)]
         ctx.floor(f"accepting paths of {name}", len(okp), 1)
-        over = {"str::len(s)": limit + 1, "len(s)": limit + 1, "re:^(slice::)?len\\((str::)?as_bytes\\(s\\)\\)$": limit + 1}
+        over = {"re:^(?:\\w+::)*len\\((?:(?:\\w+::)*as_bytes\\()?s\\)?\\)$": limit + 1}
         left = [p for p in D.evaluate(okp, U.int_valuation(over))]
         how = "byte length"
         if left:
-            # a code point limit bounds the bytes only if accepted strings are ASCII
-            def ascii_class(p):
-                for a, t in p.conds:
-                    m = re.search(r"Iterator::all\(str::chars\(s\), closure\[([^\]]+)\]\)", D.show_atom(a))
-                    if m and t:
-                        c2 = w.fn(m.group(1))
-                        names = [M.callee_name(c) for _, c in M.calls(c2["body"])]
-                        return bool(names) and all(ASCII_ONLY_CALLEE.search(n_) for n_ in names) and any("is_ascii_" in n_ for n_ in names)
-                return False
-            if all(ascii_class(p) for p in left):
+            # a code point limit bounds the bytes only if accepted strings are ASCII (class read off the validator, see accepted_chars)
+            got, _how = accepted_chars(w, f)
+            if got is not None and all(ord(c_) < 128 for c_ in got):
                 over2 = dict(over)
                 over2["Iterator::count(str::chars(s))"] = limit + 1
                 left = [p for p in D.evaluate(left, U.int_valuation(over2))]
@@ -552,44 +545,85 @@ ALNUM = "0123456789abcdefghijklmnopqrstuvwxyzABCDEFGHIJKLMNOPQRSTUVWXYZ"
 CHARSETS = {"client_secret": ALNUM + ".=_-", "server_signing_key_version": ALNUM + "_", "base64_public_key": ALNUM + "+/="}
 
 
+def accepted_chars(w, f, okp_all=None):
+    """The set of code points 0..=255 a validator lets through, read off its accepting paths. Recognised forms of the all-characters test:
+    `s.chars()/bytes().all(P)` true, `.any(P)` false (P a closure or a function; complemented for any), or a hand-written loop over
+    `s.chars()` / `s.bytes()` (decided from the paths that see exactly one character). Returns (set, how) or (None, reason)."""
+    dex = D.Dex(w.lookup, adt_discr=w.adt_discr, inline=lambda n: False, unroll=2)
+    paths = dex.paths(f, [D.sym("s")])
+    okp = [p for p in paths if p.kind == "ret" and U.is_ok(p.ret)]
+    if not okp:
+        return None, "no accepting path"
+    ITER = r"(?:str::chars|str::bytes|str::char_indices|slice::iter\((?:str::)?as_bytes)\(s\)\)?"
+    preds, loops = set(), False
+    for p in okp:
+        found = []
+        for a_, t in p.conds:
+            m = re.search(r"Iterator::(all|any)\(" + ITER + r", (?:closure|fn)\[([^\]]+)\]\)", D.show_atom(a_))
+            if m and ((m.group(1) == "all") == bool(t)):
+                found.append((m.group(1), m.group(2)))
+        if found:
+            preds.update(found)
+        elif any(re.match(r"^Iterator::next\((?:IntoIterator::into_iter\()?" + ITER, D.show_atom(a_)) for a_, _ in p.conds):
+            loops = True
+        else:
+            return None, "an accepting path has no all-characters test"
+    if preds and loops:
+        return None, "accepting paths mix iterator adaptors and hand-written loops"
+    if preds:
+        got = None
+        for kind_, name in sorted(preds):
+            table = byte_truth_table(w, w.fn(name))
+            if isinstance(table, str):
+                return None, table
+            chars = {chr(b) for b in range(256) if table[b] == (kind_ == "all")}
+            got = chars if got is None else got & chars
+        return got, "all/any over the characters"
+    # hand-written loop: paths that take exactly one element (first next() Some, second None)
+    FIRST = re.compile(r"^(Iterator::next\((?:IntoIterator::into_iter\()?" + ITER + r"\)?\))$")
+    one = []
+    sym = None
+    for p in paths:
+        if p.kind != "ret":
+            continue
+        tv = U.true_variants(p)
+        nx = sorted(k for k in tv if re.match(r"^Iterator::next\(", k) and "(s)" in k)
+        firsts = [k for k in nx if "#" not in k]
+        if len(firsts) == 1 and tv[firsts[0]] == "Some" and all(tv[k] == "None" for k in nx if k != firsts[0]) and len(nx) == 2:
+            one.append(p)
+            sym = firsts[0] + ".Some.0"
+    if not one or sym is None:
+        return None, "the character loop of the validator was not recognised"
+    got = set()
+    try:
+        for b in range(256):
+            sel = D.evaluate(one, char_valuation(b, sym, strict=False))
+            outs = {U.is_ok(p_.ret) for p_ in sel}
+            if True in outs:
+                got.add(chr(b))
+    except KeyError as e:
+        return None, f"the character loop uses `{e.args[0][:60]}`, which is not an ASCII classification"
+    return got, "hand-written loop (paths over one character)"
+
+
 def charset_rules(ctx, w):
     """C10.charset: the opaque identifiers whose grammar is a plain ASCII character class are accepted only if every character is in that
-    class. The class is read off the validator: its accepting paths require `s.chars().all(closure)` (or bytes), and the closure's truth table
-    over the code points 0..=255 must equal the grammar's class; a Unicode-aware classification (char::is_alphanumeric) cannot be tabulated
-    and accepts letters and digits of every script."""
+    class. The class is read off the validator (see accepted_chars) as a truth table over the code points 0..=255 and must equal the
+    grammar's class; a Unicode-aware classification (char::is_alphanumeric) cannot be tabulated and accepts letters and digits of every script."""
     ctx.rule("C10.charset", "client_secret / server_signing_key_version / base64_public_key validators: every accepting path requires all characters to pass a "
                             "predicate whose truth table (code points 0..=255, ASCII classifications by their documented meaning) equals the grammar's ASCII class; "
                             "Unicode-aware classifications are refused")
-    dex = D.Dex(w.lookup, adt_discr=w.adt_discr, inline=lambda n: False)
     for mod, chars in CHARSETS.items():
         f = w.fn(f"ruma_identifiers_validation::{mod}::validate")
-        okp = [p for p in dex.paths(f, [D.sym("s")]) if p.kind == "ret" and U.is_ok(p.ret)]
-        ctx.floor(f"accepting paths of {mod}::validate", len(okp), 1)
-        clos = set()
-        unguarded = False
-        for p in okp:
-            found = [re.search(r"Iterator::all\((?:str::chars|str::bytes|slice::iter\(str::as_bytes)\(s\)\)?, closure\[([^\]]+)\]\)", D.show_atom(a))
-                     for a, t in p.conds if t]
-            found = [m.group(1) for m in found if m]
-            if not found:
-                unguarded = True
-            clos.update(found)
         key = f"C10.charset:{mod}"
-        if unguarded or not clos:
-            ctx.violation("C10.charset", key, w.where(f), f"{mod}::validate has an accepting path without an all-characters test")
+        got, how = accepted_chars(w, f)
+        if got is None:
+            ctx.violation("C10.charset", key, w.where(f), f"{mod}::validate does not restrict the characters to the grammar's class [{chars[62:]} and ASCII letters "
+                                                           f"and digits]: {how} (e.g. `é` or `٣` is accepted)")
             continue
-        problems = []
-        for cn in sorted(clos):
-            table = byte_truth_table(w, w.fn(cn))
-            if isinstance(table, str):
-                problems.append(table)
-                continue
-            got = {chr(b) for b in range(256) if table[b]}
-            if got != set(chars):
-                problems.append(f"accepts {sorted(got - set(chars))[:8]} beyond / refuses {sorted(set(chars) - got)[:8]} of the grammar's class")
-        ctx.check(not problems, "C10.charset", key, w.where(f),
-                  bad_msg=f"{mod}::validate does not restrict the characters to the grammar's class [{chars[62:]} and ASCII letters and digits]: {problems} "
-                          f"(e.g. `é` or `٣` is accepted)", ok_msg=f"class = ASCII alphanumerics + {chars[62:]!r}")
+        ctx.check(got == set(chars), "C10.charset", key, w.where(f),
+                  bad_msg=f"{mod}::validate does not restrict the characters to the grammar's class [{chars[62:]} and ASCII letters and digits]: accepts "
+                          f"{sorted(got - set(chars))[:8]} beyond / refuses {sorted(set(chars) - got)[:8]} of it", ok_msg=f"class = ASCII alphanumerics + {chars[62:]!r} ({how})")
 
 
 def length_rules(ctx, w):
@@ -695,6 +729,40 @@ U8_PREDICATES = {
 }
 
 
+def char_valuation(b, sym, strict):
+    """Valuation of the atoms about one byte / char `sym` when its value is b. strict: an atom that cannot be interpreted raises KeyError;
+    otherwise atoms that do not mention the symbol are left undecided (None) and only uninterpretable atoms ABOUT the symbol raise."""
+    S = re.escape(sym)
+
+    def val(atom):
+        t = D.show_atom(atom)
+        if not strict and sym not in t:
+            return None
+        if atom[0] == "bool":
+            m = re.match(rf"^(?:\w+::)*(is_ascii\w*)\({S}\)$", t)
+            if m and m.group(1) in U8_PREDICATES:
+                return U8_PREDICATES[m.group(1)](b)
+            m = re.match(rf"^(?:\w+::)*contains\('([^']*)', {S}\)$", t)      # `".=_-".contains(c)`
+            if m:
+                return chr(b) in m.group(1)
+            raise KeyError(t)
+        if atom[0] == "int":         # switch on the byte / char value (`matches!(c, ':' | '\\0')`)
+            if D.show(atom[1]) in (sym, f"cast({sym})") and isinstance(atom[2], int):
+                return b == atom[2]
+            raise KeyError(t)
+        if atom[0] in ("eq", "cmp"):
+            def num(x):
+                if D.is_const(x):
+                    return ord(x[1]) if isinstance(x[1], str) and len(x[1]) == 1 else (x[1] if isinstance(x[1], int) else None)
+                return b if D.show(x) in (sym, f"cast({sym})") else None
+            l, r = (num(atom[1]), num(atom[2])) if atom[0] == "eq" else (num(atom[2]), num(atom[3]))
+            if l is None or r is None:
+                raise KeyError(t)
+            return l == r if atom[0] == "eq" else l < r
+        raise KeyError(t)
+    return val
+
+
 def byte_truth_table(w, clo):
     """Truth value of a `|b: u8| -> bool` (or `|c: char|`) closure for b in 0..=255, from its DEX paths; core's ASCII classification methods are
     interpreted by their documented meaning. Returns a list of 256 bools, or a string saying what could not be interpreted (e.g. a
@@ -705,31 +773,7 @@ def byte_truth_table(w, clo):
         return "the character predicate has a non-returning path"
 
     def valuation(b):
-        def val(atom):
-            t = D.show_atom(atom)
-            if atom[0] == "bool":
-                m = re.match(r"^(?:\w+::)*(is_ascii\w*)\(b\)$", t)
-                if m and m.group(1) in U8_PREDICATES:
-                    return U8_PREDICATES[m.group(1)](b)
-                m = re.match(r"^(?:\w+::)*contains\('([^']*)', b\)$", t)      # `".=_-".contains(c)`
-                if m:
-                    return chr(b) in m.group(1)
-                raise KeyError(t)
-            if atom[0] == "int":         # switch on the byte / char value (`matches!(c, ':' | '\\0')`)
-                if D.show(atom[1]) in ("b", "cast(b)") and isinstance(atom[2], int):
-                    return b == atom[2]
-                raise KeyError(t)
-            if atom[0] in ("eq", "cmp"):
-                def num(x):
-                    if D.is_const(x):
-                        return ord(x[1]) if isinstance(x[1], str) and len(x[1]) == 1 else (x[1] if isinstance(x[1], int) else None)
-                    return b if D.show(x) == "b" else None
-                l, r = (num(atom[1]), num(atom[2])) if atom[0] == "eq" else (num(atom[2]), num(atom[3]))
-                if l is None or r is None:
-                    raise KeyError(t)
-                return l == r if atom[0] == "eq" else l < r
-            raise KeyError(t)
-        return val
+        return char_valuation(b, "b", strict=True)
     table = []
     try:
         for b in range(256):
